@@ -30,6 +30,10 @@ fn main() {
         eprintln!("usage: kpverif <property> [--tier quick|thorough] [--seed N] [--report path] [--replay path]");
         std::process::exit(2);
     }
+    if argv[1] == "deep-child" {
+        kdbx2::deep_child(&argv);
+        return;
+    }
     #[allow(unused_mut)]
     let mut args = Args {
         prop: argv[1].clone(),
